@@ -49,6 +49,36 @@ type spec struct {
 	Ops   []string `json:"ops"`
 	Mode  string   `json:"mode,omitempty"`  // r = restart after every op and continue on the reloaded instance; n = one instance
 	Crash int      `json:"crash,omitempty"` // die before the k-th state-changing step of the LAST op (0 = no crash)
+	// family "bigfile" (big.go): one form of the history is LONG and its filler is sized so that a chosen byte of the
+	// final file sits at offset B*4096+D
+	Aim  string `json:"aim,omitempty"`  // nl | tab | len | eof | u2 | u3 | u4
+	V    string `json:"v,omitempty"`    // shape of the long form (longForm)
+	B    int    `json:"B,omitempty"`    // which multiple of the 4096-byte read buffer
+	D    int    `json:"d,omitempty"`    // distance from it
+	Tear string `json:"tear,omitempty"` // torn write: the Crash-th step is a write of more than 4096 bytes of which only a page-aligned part arrives (w<j> | f<j>)
+
+	fill int               // filler length of the long form (computed from a pilot run)
+	s0   map[string]string // torn write: the files as they were just before the write
+	torn string            // torn write: what arrived, for the detail texts
+}
+
+func (s *spec) death() string {
+	if s.Tear != "" {
+		return s.torn
+	}
+	return fmt.Sprintf("died before step %d", s.Crash)
+}
+
+// form returns the text of the form an Add operation (A<i>, S<i>, AL, AM, SL, SM) enters.
+func (s *spec) form(op string) string {
+	switch op[1:] {
+	case "L":
+		return longForm(s.V, s.Aim, s.fill)
+	case "M":
+		return midForm
+	}
+	i, _ := strconv.Atoi(op[1:])
+	return forms[i]
 }
 
 func (s *spec) String() string {
@@ -64,22 +94,33 @@ func init() {
 			"blank; Clear ranges through the Go methods and through the Lisp functions clear-history / clear-stash on the session globals; SetLimit; Stash.Add/Clear; setq of watched settings) on the real pkg/repl code over an in-memory " +
 			"file system, in two modes (one instance / restart after every operation); plus, for every history, a process death " +
 			"before every state-changing file-system step (create, truncate, each write, rename) of the last operation, then " +
-			"restart, two further Adds and restarts. A case is non-trivial when it crosses the compaction path, contains a clear, " +
-			"a limit change or a crash point that was actually reached",
+			"restart, two further Adds and restarts. Family bigfile: histories of History / Stash operations in which one form is LONG " +
+			"(a string literal padded with position-dependent filler whose length is computed from the observed layout of a pilot run) " +
+			"so that the newline ending the entry, the TAB between the lines of a multi-line form, each byte of a 2-, 3- and 4-byte " +
+			"UTF-8 character, the end of the file and the length of the entry land on every offset d around the 4096-byte buffer " +
+			"boundaries of the line reader, with short entries before and after and a second long entry; restart after every " +
+			"operation, the same crash points. Torn writes: for every write step of more than 4096 bytes of the last operation, the " +
+			"deaths that leave only the first j pages of that write (counted from the start of the write and from the page boundaries " +
+			"of the file). A case is non-trivial when it crosses the compaction path, contains a clear, a limit change, a crash point " +
+			"that was actually reached, or a big file whose aimed byte was verified to be at the aimed offset",
 		Assumptions: []string{
-			"process-death model: death happens between system calls; a completed write persists (page cache), a single write(2) is not torn",
+			"process-death model: death happens between system calls; a completed write persists (page cache); a single write(2) of at most 4096 bytes is not torn; " +
+				"a write of more than 4096 bytes may be cut short at a multiple of 4096 bytes (the kernel copies page by page and checks for a fatal signal in between)",
+			"bigfile: the chunk boundaries aimed at are those of a reader that fills a 4096-byte buffer from the file position (multiples of 4096 in the file); d covers -3..+3 (quick) / -8..+8 (thorough) around them",
 			"restart = a fresh History/Stash value loading the surviving bytes; for settings: defaults restored, ZeroMods, SetConfigDir again",
 			"Clear(start,end): either index reading (0 = oldest or 0 = most recent) is accepted",
 			"after a crash the reloaded history must be the pre- or post-operation state or a contiguous run of one of them",
 		},
 		Enumerate: enumerate,
 		Exec:      exec,
-		Required:  []string{"compaction", "crash-reached", "crash-in-compaction", "clear", "lisp-level-clear", "restart", "tmp-left-behind", "stash", "settings"},
+		Required: append([]string{"compaction", "crash-reached", "crash-in-compaction", "clear", "lisp-level-clear", "restart", "tmp-left-behind", "stash", "settings"},
+			bigRequired...),
+		Selftest: selftest,
 		Bound: func(tier string) string {
 			if tier == engine.Thorough {
-				return "L=3: all histories of length <=5 over 20 ops x 2 modes, every crash point of the last op for every one of them; L=10: 8..13 adds then all op sequences of length <=3, x 2 modes + every crash point; L=20: 19..25 adds then all op sequences of length <=2 likewise; stash histories <=5 (crash points for <=2); settings histories <=5 incl. restarts (several sessions), crash points for <=3"
+				return "L=3: all histories of length <=5 over 20 ops x 2 modes, every crash point of the last op for every one of them; L=10: 8..13 adds then all op sequences of length <=3, x 2 modes + every crash point; L=20: 19..25 adds then all op sequences of length <=2 likewise; stash histories <=5 (crash points for <=2); settings histories <=5 incl. restarts (several sessions), crash points for <=3; " + bigBound(tier)
 			}
-			return "L=3: all histories of length <=4 over 20 ops x 2 modes, every crash point of the last op for every one of them; L=10: 9..11 adds then all op sequences of length <=2, x 2 modes + every crash point; L=20: 21..23 adds then all op sequences of length <=2 likewise; stash histories <=4 (crash points for <=2); settings histories <=4 incl. restarts (several sessions), crash points for <=3"
+			return "L=3: all histories of length <=4 over 20 ops x 2 modes, every crash point of the last op for every one of them; L=10: 9..11 adds then all op sequences of length <=2, x 2 modes + every crash point; L=20: 21..23 adds then all op sequences of length <=2 likewise; stash histories <=4 (crash points for <=2); settings histories <=4 incl. restarts (several sessions), crash points for <=3; " + bigBound(tier)
 		},
 	})
 }
@@ -178,6 +219,8 @@ func enumerate(tier string, emit func(string)) {
 			}
 		}
 	})
+	// --- big files: chunk boundaries of the 4096-byte line reader, torn writes of more than a page (big.go)
+	enumerateBig(tier, emit)
 	// --- settings
 	cn := 4
 	if thorough {
@@ -444,11 +487,14 @@ func exec(text string) (res engine.Result) {
 		execStash(&sp, &res)
 	case "cfg":
 		execCfg(&sp, &res)
+	case "bighist", "bigstash":
+		execBig(&sp, &res)
 	}
 	return
 }
 
 func loadHist(limit int) *repl.History {
+	checkReaderTerminates(histFile)
 	h := &repl.History{}
 	h.SetLimit(limit)
 	h.Load(histFile)
@@ -461,8 +507,7 @@ func execHist(sp *spec, res *engine.Result) {
 	applyRef := func(op string) (alt []string) {
 		switch op[0] {
 		case 'A':
-			i, _ := strconv.Atoi(op[1:])
-			ref.add(forms[i])
+			ref.add(sp.form(op))
 		case 'C', 'K':
 			s, e := parse2(op[1:])
 			a, b := clearBoth(ref.forms, s, e)
@@ -481,8 +526,7 @@ func execHist(sp *spec, res *engine.Result) {
 	apply := func(h *repl.History, op string) {
 		switch op[0] {
 		case 'A':
-			i, _ := strconv.Atoi(op[1:])
-			h.Add(repl.NewForm([]byte(forms[i])))
+			h.Add(repl.NewForm([]byte(sp.form(op))))
 		case 'C':
 			s, e := parse2(op[1:])
 			h.Clear(s, e)
@@ -584,24 +628,36 @@ func execHist(sp *spec, res *engine.Result) {
 func execHistCrash(sp *spec, res *engine.Result, h *repl.History, ref *refHist, op string, pre []string,
 	apply func(*repl.History, string), applyRef func(string) []string) {
 	steps0 := vfs.StepCount()
-	vfs.DieBefore(steps0 + sp.Crash)
+	die := steps0 + sp.Crash
+	if sp.Tear != "" {
+		die++ // torn write: step Crash is carried out in full, then cut back to the part that arrived (tearWrite)
+	}
+	vfs.DieBefore(die)
 	crash, other := guard(func() { apply(h, op) })
 	if other != nil {
 		res.Fail(fmt.Sprintf("hist op-panics op=%c", op[0]), fmt.Sprintf("%s: %v", sp, other))
 		return
 	}
-	if !crash {
+	if !crash && (sp.Tear == "" || len(vfs.Steps())-steps0 < sp.Crash) {
 		vfs.Revive()
 		res.Outcome = "crash-point-beyond-op"
 		return
 	}
-	res.Hit("crash-reached")
-	res.Nontrivial = true
 	done := vfs.Steps()[steps0:]
 	where := "first-step"
 	if 0 < len(done) {
 		where = "after-" + done[len(done)-1].Kind
 	}
+	if sp.Tear != "" {
+		vfs.Revive()
+		if why := tearWrite(sp, res, done[sp.Crash-1]); why != "" {
+			res.Outcome = why
+			return
+		}
+		where = "torn-write"
+	}
+	res.Hit("crash-reached")
+	res.Nontrivial = true
 	inCompaction := false
 	for _, st := range done {
 		if strings.HasSuffix(st.Path, ".tmp") {
@@ -638,7 +694,7 @@ func execHistCrash(sp *spec, res *engine.Result, h *repl.History, ref *refHist, 
 		// classify against the closest of pre / post
 		why := classify(nl, norm(post))
 		res.Fail(fmt.Sprintf("hist crash-state op=%s at=%s why=%s", opKind, where, why),
-			fmt.Sprintf("%s: died before step %d (%v done); before the op %s, after it %s; reloaded %s; file %q", sp, sp.Crash, done, show(pre), show(post), show(loaded), vfs.Snapshot()[histFile]))
+			fmt.Sprintf("%s: %s (%v done); before the op %s, after it %s; reloaded %s; file %q", sp, sp.death(), done, show(pre), show(post), show(loaded), vfs.Snapshot()[histFile]))
 	}
 	// the crash must not poison the next session: two further adds, restart after each
 	h = h2
@@ -660,8 +716,8 @@ func execHistCrash(sp *spec, res *engine.Result, h *repl.History, ref *refHist, 
 		l3 := memForms(h3)
 		if why := classify(norm(l3), norm(mem)); why != "" {
 			res.Fail(fmt.Sprintf("hist after-crash reload!=memory op=%s at=%s why=%s", opKind, where, why),
-				fmt.Sprintf("%s: died before step %d (%v done), restarted with %s, then Add %q: in memory %s, reloaded %s, file %q, tmp %q",
-					sp, sp.Crash, done, show(before), f, show(mem), show(l3), vfs.Snapshot()[histFile], vfs.Snapshot()[histFile+".tmp"]))
+				fmt.Sprintf("%s: %s (%v done), restarted with %s, then Add %q: in memory %s, reloaded %s, file %q, tmp %q",
+					sp, sp.death(), done, show(before), f, show(mem), show(l3), vfs.Snapshot()[histFile], vfs.Snapshot()[histFile+".tmp"]))
 			break
 		}
 		h = h3
@@ -687,6 +743,7 @@ func lispClear(fn string, start, end int, install, takeBack func()) {
 }
 
 func loadStash() *repl.Stash {
+	checkReaderTerminates(stashFile)
 	s := &repl.Stash{}
 	s.LoadExpanded(stashFile)
 	return s
@@ -699,8 +756,7 @@ func execStash(sp *spec, res *engine.Result) {
 	apply := func(s *repl.Stash, op string) {
 		switch op[0] {
 		case 'S':
-			i, _ := strconv.Atoi(op[1:])
-			s.Add(repl.NewForm([]byte(forms[i])))
+			s.Add(repl.NewForm([]byte(sp.form(op))))
 		case 'X':
 			a, b := parse2(op[1:])
 			s.Clear(a, b)
@@ -714,27 +770,65 @@ func execStash(sp *spec, res *engine.Result) {
 		pre := memForms(s)
 		if i == last && 0 < sp.Crash {
 			steps0 := vfs.StepCount()
-			vfs.DieBefore(steps0 + sp.Crash)
+			die := steps0 + sp.Crash
+			if sp.Tear != "" {
+				die++ // torn write, as in execHistCrash
+			}
+			vfs.DieBefore(die)
 			crash, other := guard(func() { apply(s, op) })
 			if other != nil {
 				res.Fail(fmt.Sprintf("stash op-panics op=%s", opKind), fmt.Sprintf("%s: %v", sp, other))
 				return
 			}
-			if !crash {
+			if !crash && (sp.Tear == "" || len(vfs.Steps())-steps0 < sp.Crash) {
 				vfs.Revive()
 				res.Outcome = "crash-point-beyond-op"
 				return
 			}
+			vfs.Revive()
+			at := ""
+			if sp.Tear != "" {
+				if why := tearWrite(sp, res, vfs.Steps()[steps0:][sp.Crash-1]); why != "" {
+					res.Outcome = why
+					return
+				}
+				at = " at=torn-write"
+			}
 			res.Hit("crash-reached")
 			res.Nontrivial = true
-			vfs.Revive()
 			var s2 *repl.Stash
 			_, other = guard(func() { s2 = loadStash() })
 			if other != nil {
-				res.Fail(fmt.Sprintf("stash crash restart-panics op=%s", opKind), fmt.Sprintf("%s: LoadExpanded panicked: %v", sp, other))
+				res.Fail(fmt.Sprintf("stash crash restart-panics op=%s%s", opKind, at), fmt.Sprintf("%s: LoadExpanded panicked: %v", sp, other))
 				return
 			}
 			res.Outcome = "crash:" + show(memForms(s2))
+			if sp.K == "bigstash" {
+				// the statement's crash clause constrains the history only; for the stash the later sessions must start and
+				// work (no panic). Whether a later Add survives the next restart is counted, not demanded.
+				for j := 0; j < 2; j++ {
+					f := fmt.Sprintf("(z %d)", j)
+					_, other = guard(func() { s2.Add(repl.NewForm([]byte(f))) })
+					if other != nil {
+						res.Fail(fmt.Sprintf("stash after-crash add-panics op=%s%s", opKind, at), fmt.Sprintf("%s: %v", sp, other))
+						return
+					}
+					mem := memForms(s2)
+					var s3 *repl.Stash
+					_, other = guard(func() { s3 = loadStash() })
+					if other != nil {
+						res.Fail(fmt.Sprintf("stash after-crash restart-panics op=%s%s", opKind, at), fmt.Sprintf("%s: LoadExpanded panicked: %v", sp, other))
+						return
+					}
+					if eqs(norm(memForms(s3)), norm(mem)) {
+						res.Hit("stash-after-crash-later-add-reloads" + at)
+					} else {
+						res.Hit("stash-after-crash-later-add-does-not-reload" + at)
+						res.Outcome += "|later-add-lost"
+					}
+					s2 = s3
+				}
+			}
 			return
 		}
 		_, other := guard(func() { apply(s, op) })
@@ -745,10 +839,10 @@ func execStash(sp *spec, res *engine.Result) {
 		mem := memForms(s)
 		if op[0] == 'S' {
 			// reference: appended unless blank or equal to the last
-			fi, _ := strconv.Atoi(op[1:])
+			ft := sp.form(op)
 			want := pre
-			if !blank(forms[fi]) && (len(pre) == 0 || pre[len(pre)-1] != forms[fi]) {
-				want = append(append([]string{}, pre...), forms[fi])
+			if !blank(ft) && (len(pre) == 0 || pre[len(pre)-1] != ft) {
+				want = append(append([]string{}, pre...), ft)
 			}
 			if !eqs(mem, want) {
 				res.Fail(fmt.Sprintf("stash memory!=reference op=S why=%s", classify(mem, want)),
